@@ -328,7 +328,15 @@ mod fen {
             let mut location_index: u8 = 0;
             for c in s.chars() {
                 match c {
-                    '1'..='8' => location_index += c.to_digit(10).ok_or(())? as u8,
+                    '1'..='8' => {
+                        location_index += c.to_digit(10).ok_or(())? as u8;
+
+                        // The board has 64 squares; running past them is a malformed placement
+                        // (and would eventually overflow the u8 cursor).
+                        if location_index > 64 {
+                            return Err(());
+                        }
+                    }
                     ' ' => break,
                     '/' => (),
                     _ => {
